@@ -12,7 +12,6 @@ use crate::twin::*;
 use nalgebra::DVector;
 use serde_json::json;
 use std::sync::Arc;
-use varpro::prelude::*;
 
 #[derive(Clone, Debug)]
 pub enum Op {
@@ -24,6 +23,8 @@ pub enum Op {
     /// fail the d-th derivative call of the next jacobian(), then query again
     JacFail(usize),
     Churn(u64),
+    /// a complete (short) fit on the long-lived problem; the problem inside the result carries on
+    Fit(u64),
 }
 
 pub struct Sequence {
@@ -116,6 +117,7 @@ pub fn gen_sequence(rng: &mut Rng, nmax: usize, len: usize, hostile: bool, is_f3
                     ops.push(Op::Set(a));
                 }
             }
+            11 if rng.chance(0.5) => ops.push(Op::Fit(rng.next_u64())),
             _ => ops.push(Op::Churn(rng.next_u64())),
         }
         if rng.chance(0.5) {
@@ -173,6 +175,8 @@ pub fn run_sequence<T: Sc>(seq: &Sequence, fresh_twin: bool) -> SeqResult {
         return res;
     };
     let mut last: Vec<T> = seq.spec.alpha0.iter().map(|v| T::of(*v)).collect();
+    // a fit returns the problem in its sequential flavour: the fresh twin follows
+    let par_now = std::cell::Cell::new(seq.spec.par);
     let compare_fresh = |prob: &AnyProblem<T>, res: &mut SeqResult, what: &str| {
         let s = snap(prob, true);
         push_snap(&mut res.bits, &s);
@@ -181,12 +185,13 @@ pub fn run_sequence<T: Sc>(seq: &Sequence, fresh_twin: bool) -> SeqResult {
             res.states_with_values += 1;
         }
         // builder-made models: the value matrix itself is allocated uninitialised
-        if let Ok(m) = prob.model().inner.eval() {
+        if let Some(m) = prob.model_eval() {
             res.bits.extend(bits_of(&m));
         }
         if fresh_twin {
             let mut fs = seq.spec.clone();
             fs.alpha0 = s.params.clone();
+            fs.par = par_now.get();
             // parameters travel as f64; NaN payloads and f32 values survive the round trip
             if let Ok(f) = build_problem::<T>(&fs, &SpyCtl::new()) {
                 let sf = snap(&f, true);
@@ -250,6 +255,20 @@ pub fn run_sequence<T: Sc>(seq: &Sequence, fresh_twin: bool) -> SeqResult {
                 compare_fresh(&prob, &mut res, &format!("op {i} query after a failed derivative"));
             }
             Op::Churn(seed) => churn(*seed),
+            Op::Fit(seed) => {
+                let mut r = Rng::new(*seed);
+                let mut cfg = LmCfg::random(&mut r);
+                cfg.default = false;
+                cfg.patience = r.int(1, 4);
+                let lm = cfg.make::<T>();
+                let fit = prob.fit(&lm);
+                res.bits.push(fit.is_ok() as u64);
+                prob = fit.into_problem();
+                par_now.set(false);
+                last = prob.params().iter().cloned().collect();
+                // the problem that went through a fit is still a function of its parameters only
+                compare_fresh(&prob, &mut res, &format!("op {i} state of the problem returned by a fit"));
+            }
         }
     }
     res
@@ -426,7 +445,7 @@ fn run_tool(ctx: &Ctx, name: &str, cmd: &mut std::process::Command, timeout_s: u
 }
 
 pub fn run(ctx: &Ctx) {
-    ctx.rule("history-twin: one long-lived problem driven through 12 (quick) / 40 (thorough) random operations (wide updates, repeated alpha, non-finite/extreme alpha that empty the cache, injected model failures, repeated queries, failed derivative calls, heap churn) and compared bitwise after every update with a freshly built problem at the reported parameters; repeated queries identical. Shapes: zoo models and table models with M<=8, P<=10, N<=64, S<=4 including dead parameters (identically zero derivative matrices) and zero derivative columns. clones: a problem over a Clone-able hand-written model and its clone are moved to different parameters and queried in interleaved order, each compared bitwise with a fresh problem. poison: the same sequences in child processes under allocator poison modes 0xAA / 0x55 / random, outputs bit-identical across modes and free of poison patterns. thorough adds valgrind memcheck over the release build and Miri over small shapes, with a data-dependent branch on every output element. non-trivial = the sequence produced at least one state with values; distinct = hash(problem, first outputs)");
+    ctx.rule("history-twin: one long-lived problem driven through 12 (quick) / 40 (thorough) random operations (wide updates, repeated alpha, non-finite/extreme alpha that empty the cache, injected model failures, repeated queries, failed derivative calls, heap churn, complete short fits after which the problem inside the fit result carries on) and compared bitwise after every update with a freshly built problem at the reported parameters; repeated queries identical. Shapes: zoo models and table models with M<=8, P<=10, N<=64, S<=4 including dead parameters (identically zero derivative matrices) and zero derivative columns. clones: a problem over a Clone-able hand-written model and its clone are moved to different parameters and queried in interleaved order, each compared bitwise with a fresh problem. poison: the same sequences in child processes under allocator poison modes 0xAA / 0x55 / random, outputs bit-identical across modes and free of poison patterns. thorough adds valgrind memcheck over the release build and Miri over small shapes, with a data-dependent branch on every output element. non-trivial = the sequence produced at least one state with values; distinct = hash(problem, first outputs)");
     ctx.assume("bitwise equality is demanded because the property is about identity/determinism of one deterministic computation on the same stored data");
     let t = ctx.tier;
     let len = t.pick(12, 40);
